@@ -45,7 +45,7 @@ from vsim.harness import CallFaults, Peer, swarm_selector
 from vsim.loop import run_async, settle, wait_until
 from vsim.runner import Harness
 from vsim.sock import Delivery, SimNet
-from vsim.world import HarnessError, StepCap, Violation, World
+from vsim.world import HarnessError, Violation, World
 
 PROPERTY = "C15"
 LEVEL = "exploration"
